@@ -87,6 +87,7 @@ def run(ctx):
     ctx.floor("mutating functions among them", len([p for p in inscope if p in E.Mset]), 10)
     table = ctx.table("eam.tsv")
     n = report(ctx, f, fns, E, inscope, table)
+    check_no_clamp(ctx, f, inscope)
     ctx.note("own (mutation, error) pairs examined: %d; functions with an error-after-mutation summary: %s" % (n, sorted(norm_fn(p).split("::")[-1] for p in E.EAM if p in inscope)))
     # entry points that are clean get a positive obligation each (so that the evidence shows what was proved)
     for e in entries:
@@ -101,3 +102,34 @@ def run(ctx):
         got = v[1].split("::")[-1] if v and v[0] == "variant" else None
         ctx.ob("R5-sibling", "TryFrom<Action> for ObjType|%s -> ObjType::%s" % (action, obj), got == obj, "automerge/src/op_set2/types.rs",
                "recognised" if got == obj else "put_object(.., ObjType::%s) writes Action::%s, which the op set maps to %s: the new object is never registered" % (obj, action, v))
+
+
+def check_no_clamp(ctx, f, inscope):
+    """an out-of-range position or length supplied by the caller must surface as an error: in the functions the listed editing calls
+    reach, no saturating / wrapping / clamping arithmetic is applied to a value that derives from an integer parameter (a clamp turns
+    an invalid call into a different valid one)"""
+    import re
+    ctx.rule("R4-clamp", "no saturating_* / wrapping_* / clamp / min / max on values derived from integer parameters of the editing functions")
+    CLAMP = re.compile(r"^core::num::(.*::)?(saturating_\w+|wrapping_\w+|clamp)$|^core::cmp::(Ord::)?(min|max|clamp)$")
+    n = n_sites = 0
+    for p in sorted(inscope):
+        r = f.fns[p]
+        b = None
+        for bi, t in f.calls(r):
+            c = norm_fn(t.get("fn")) or ""
+            if not CLAMP.match(c):
+                continue
+            b = b or cfg.body(r)
+            n_sites += 1
+            # parameters that carry the caller's request (integers, argument structs, props), not the document / log / transaction state
+            ints = {i for i in range(1, b.argc + 1) if not any(x in b.local_ty(i) for x in ("Automerge", "PatchLog", "TransactionInner", "OpSet", "Clock", "ObjMeta", "ObjId"))}
+            dep = set()
+            for a in t["args"]:
+                # direct data flow only (moves, arithmetic, field reads): a value a query computed from the argument is the document's
+                pv = b.provenance(a, through_calls=False)
+                dep |= {i for i, proj in pv.params if i in ints}
+            if dep:
+                n += 1
+                ctx.ob("R4-clamp", "%s|%s" % (norm_fn(p), c.split("::")[-1]), False, t["sp"],
+                       "%s is applied to a value derived from the caller's %s: an out-of-range argument is silently replaced instead of being rejected" % (c.split("::")[-1], sorted(b.local_name(i) or i for i in dep)))
+    ctx.ob("R4-clamp", "no clamped caller-supplied positions in the editing functions", n == 0, "", "%d clamping operations examined, %d on caller-supplied integers" % (n_sites, n))
